@@ -40,7 +40,7 @@ echo "RESULT demo_clean_exit=$A demo_patched_exit=$B build=$C0 suite_exit=$C" | 
 for P in $PROPS; do
   mkdir -p /var/tmp/scv_$NAME; rm -rf /var/tmp/scv_$NAME/*; cp -r /verif/spec /verif/bounded /verif/known_findings.json /var/tmp/scv_$NAME/ 2>/dev/null
   echo "== check $P on patched tree" | tee -a $LOG
-  /verif/bin/vc check -prop $P -repo $WT -verif /var/tmp/scv_$NAME 2>&1 | cut -c1-300 | tee -a $LOG | tail -6
+  /verif/bin/vc check -prop $P -repo $WT -verif /var/tmp/scv_$NAME 2>&1 | cut -c1-300 | tee -a $LOG | grep -v "^KNOWN-FINDING" | tail -8
   rm -rf /var/tmp/scv_$NAME
 done
 cd /; git -C /repo worktree remove --force $WT; rm -rf $WT
